@@ -5,19 +5,21 @@ Import ListNotations.
 
 (* [stream_ok k pps]: every packet is preceded by exactly k foreign bytes, consists of well-formed
    bytes, has at least 7 of them, and its length field (bits 32..47) equals its data length - 1.
-   [encode pps] is the byte stream.  Source kinds: 0 bytes object, 1 file object, 2 socket. *)
+   [encode pps] is the byte stream.  Source kinds: 0 bytes object, 1 file object, 2 socket.
+   [T] is the buffer-trim threshold (the literal 20_000_000 of the source, [frame = frameT TRIM]): the statements hold
+   for every value of it, which is what lets the correspondence exercise the trim branch with a small number. *)
 
 (* a bytes object *)
-Theorem C02_bytes_source : forall k pps, stream_ok k pps ->
-  frame 0 k (encode pps) [] = Some (map snd pps).
+Theorem C02_bytes_source : forall T k pps, stream_ok k pps ->
+  frameT T 0 k (encode pps) [] = Some (map snd pps).
 Proof. exact frame_bytes_exact. Qed.
 Print Assumptions C02_bytes_source.
 
 (* a file read with any buffer size / a socket delivering any fragmentation: any cutting [cs] of the
    stream into non-empty read results *)
-Theorem C02_file_socket_source : forall kind k junk pps cs, (kind = 1 \/ kind = 2)%Z -> stream_ok k pps ->
+Theorem C02_file_socket_source : forall T kind k junk pps cs, (kind = 1 \/ kind = 2)%Z -> stream_ok k pps ->
   nonempty cs -> concat cs = encode pps ->
-  frame kind k junk cs = Some (map snd pps).
+  frameT T kind k junk cs = Some (map snd pps).
 Proof. exact frame_chunked_exact. Qed.
 Print Assumptions C02_file_socket_source.
 
